@@ -11,6 +11,11 @@ Definition lengths_of (vs : list bytes) : list Z := map (fun v => Z.of_nat (leng
 (** DELTA_LENGTH_BYTE_ARRAY: lengths, then all the bytes *)
 Definition dlba_enc (vs : list bytes) : bytes := DeltaBP.enc 32 (lengths_of vs) ++ concat vs.
 
+(** ... with the lengths written at any geometry [bs] / [nmb] of
+    DELTA_BINARY_PACKED ([dlba_enc] = [dlba_enc_g 128 4]) *)
+Definition dlba_enc_g (bs nmb : nat) (vs : list bytes) : bytes :=
+  DeltaBP.enc_g bs nmb 32 (lengths_of vs) ++ concat vs.
+
 (* cut [b] according to the lengths; extra bytes are ignored *)
 Fixpoint cut (lens : list Z) (b : bytes) : option (list bytes) :=
   match lens with
@@ -54,6 +59,26 @@ Definition dba_enc (vs : list bytes) : bytes :=
   DeltaBP.enc 32 (map Z.of_nat (prefixes [] vs))
     ++ DeltaBP.enc 32 (lengths_of (suffixes [] vs))
     ++ concat (suffixes [] vs).
+
+(** A conforming writer may share less than the longest common prefix (none
+    at all, or at most [cap] bytes), and choose the geometry of the two
+    DELTA_BINARY_PACKED sections independently. *)
+Fixpoint prefixes_c (cap : nat) (prev : bytes) (vs : list bytes) : list nat :=
+  match vs with
+  | [] => []
+  | v :: r => Nat.min cap (lcp prev v) :: prefixes_c cap v r
+  end.
+
+Fixpoint suffixes_c (cap : nat) (prev : bytes) (vs : list bytes) : list bytes :=
+  match vs with
+  | [] => []
+  | v :: r => skipn (Nat.min cap (lcp prev v)) v :: suffixes_c cap v r
+  end.
+
+Definition dba_enc_g (cap bs1 nmb1 bs2 nmb2 : nat) (vs : list bytes) : bytes :=
+  DeltaBP.enc_g bs1 nmb1 32 (map Z.of_nat (prefixes_c cap [] vs))
+    ++ DeltaBP.enc_g bs2 nmb2 32 (lengths_of (suffixes_c cap [] vs))
+    ++ concat (suffixes_c cap [] vs).
 
 Fixpoint dba_rebuild (prev : bytes) (ps : list Z) (sufs : list bytes) : option (list bytes) :=
   match ps, sufs with
